@@ -266,6 +266,15 @@ Theorem C09_go_acronym_target_refuted :
 Proof. exact Proofs.C09Witness.c09_go_acronym_target_refuted. Qed.
 Print Assumptions C09_go_acronym_target_refuted.
 
+(* Go's acronym conversion is not idempotent and the ...Inner helper gets a different number of passes at
+   its definition and at its use: definition EXYZWQrInner, reference EXYZWQRInner *)
+Theorem C09_go_acronym_inner_refuted :
+  Proofs.C09Witness.c09_witness Go [] Proofs.C09Witness.w_acrs Proofs.C09Witness.w_prog_acr
+    (go_file_decls uc_exec (Proofs.C09Witness.w_go Proofs.C09Witness.w_acrs) (Proofs.C09Recon.c09_reconciled Proofs.C09Witness.w_prog_acr))
+    "C09-go-acronym-inner" = true.
+Proof. exact Proofs.C09Witness.c09_go_acronym_inner_refuted. Qed.
+Print Assumptions C09_go_acronym_inner_refuted.
+
 (* the hypotheses of C09_Kotlin are satisfiable on a non-trivial program (mutual references, generic
    struct, tagged enum with a struct variant, alias, one renamed struct, prefix KP) *)
 Theorem C09_Kotlin_nonvacuous :
